@@ -335,6 +335,64 @@ def ev_divide(w):
     return ('divide',), h(np.nan_to_num(np.asarray(r), nan=-1, posinf=-2), np.nan_to_num(r2, nan=-1, posinf=-2))
 
 
+def ev_jitter_b(w):
+    import lentil
+    return (h(w.IMG), 'jitter_b'), h(np.asarray(lentil.jitter(w.IMG, 1.25, pixelscale=2.0)))      # same scale, other pixel scale
+
+
+def ev_jitter_c(w):
+    import lentil
+    return (h(w.IMG), 'jitter_c'), h(np.asarray(lentil.jitter(w.IMG, 1.25, oversample=3)))
+
+
+def ev_smear_b(w):
+    import lentil
+    return (h(w.IMG), 'smear_b'), h(np.asarray(lentil.smear(w.IMG, 2.0, angle=30, pixelscale=4.0)))
+
+
+@seeded
+def ev_dark0(w):
+    import lentil
+    r = lentil.detector.dark_current(20.5, shape=(3, 4), fpn_factor=0.2, seed=0)      # 0 is a seed like any other
+    r2 = lentil.detector.dark_current(20.5, shape=(3, 4), fpn_factor=0.2, seed=0)
+    return ('dark0',), h(np.asarray(r)), [(np.array_equal(r, r2), 'history-dependent:dark0:not-repeatable', 'dark_current(seed=0) gives two different frames')]
+
+
+@seeded
+def ev_shot0(w):
+    import lentil
+    r = lentil.detector.shot_noise(np.abs(w.E), seed=0)
+    r2 = lentil.detector.read_noise(w.E, 5.0, seed=0)
+    return (h(w.E), 'seed0'), h(np.asarray(r), np.asarray(r2))
+
+
+def ev_errors(w):
+    """calls that are (rightly) refused; whatever they raise, nothing may be left behind"""
+    import lentil
+    raised = []
+    for name, fn in (('idft2-bad-out', lambda: lentil.fourier.idft2(w.F, 0.25, out=np.zeros(w.F.shape))),
+                     ('dft2-bad-out', lambda: lentil.fourier.dft2(w.F, 0.25, out=np.zeros(w.F.shape, dtype=np.int32))),
+                     ('psd-bad-seed', lambda: lentil.power_spectrum(w.M, 1e-3, 1e-9, 5, 3, seed=-1)),
+                     ('psd-bad-mask', lambda: lentil.power_spectrum(np.ones(5), 1e-3, 1e-9, 5, 3, seed=1)),
+                     ('zernike-bad-index', lambda: lentil.zernike_basis(np.asarray(w.A) != 0, [0, 1, 2])),
+                     ('zernike-no-theta', lambda: lentil.zernike(np.asarray(w.A) != 0, 3, rho=np.ones(S))),
+                     ('fft-oversize', lambda: lentil.propagate_fft(lentil.Wavefront(WL) * lentil.Pupil(amplitude=np.ones((4, 4)), pixelscale=DX, focal_length=Z), DU, shape=(99, 99), oversample=2)),
+                     ('rescale-int-mask', lambda: lentil.Pupil(amplitude=np.ones((4, 4)), mask=np.ones((4, 4), dtype=int), pixelscale=DX, focal_length=Z).rescale(2).rescale(2)),
+                     ('spectrum-bad-wave', lambda: w.S1.copy().resample(np.array([500.0, 450.0]))),
+                     ('bayer-bad-pattern', lambda: lentil.detector.collect_charge_bayer(w.E3, [450.0, 650.0], 1, 1, 1, 'RGX')),
+                     ('adc-bad-gain', lambda: lentil.detector.adc(np.ones((2, 2)), np.ones((1, 2, 2, 2)))),
+                     ('propagate-none', lambda: lentil.propagate_dft(lentil.Wavefront(WL), DU, shape=(3, 3))),
+                     ('pupil-times-image', lambda: (lentil.Wavefront(WL) * lentil.Pupil(amplitude=np.ones((3, 3)), pixelscale=DX, focal_length=Z)) * lentil.Image(amplitude=np.ones((3, 3))))):
+        try:
+            with warnings.catch_warnings():
+                warnings.simplefilter('ignore')
+                fn()
+            raised.append((name, None))
+        except Exception as e:
+            raised.append((name, type(e).__name__))
+    return ('errors',), h(raised)
+
+
 def ev_global_rand(w):
     np.random.rand(3)          # the caller uses the global generator
     return None, None
@@ -432,6 +490,7 @@ EVENTS = {
     'opd_add': (hasP, ev_opd_add, {'P'}), 'opd_add_b': (hasP, ev_opd_add_b, {'P'}), 'rescale': (hasP, ev_rescale, set()),
     'dft2_a': (always, ev_dft2_a, {'HOLD'}), 'dft2_b': (always, ev_dft2_b, set()), 'dft2_c': (always, ev_dft2_c, set()), 'idft2': (always, ev_idft2, set()),
     'adc': (always, ev_adc, set()), 'shot': (always, ev_shot, set()), 'read': (always, ev_read, set()), 'dark': (always, ev_dark, set()),
+    'jitter_b': (always, ev_jitter_b, set()), 'jitter_c': (always, ev_jitter_c, set()), 'smear_b': (always, ev_smear_b, set()), 'dark0': (always, ev_dark0, set()), 'shot0': (always, ev_shot0, set()), 'errors': (always, ev_errors, set()),
     'shot_reject': (always, ev_shot_reject, set()), 'divide': (always, ev_divide, set()), 'psd': (always, ev_psd, set()), 'psd_b': (always, ev_psd_b, set()), 'zfit_b': (always, ev_zfit_b, set()), 'spec_sample_b': (always, ev_spec_sample_b, set()), 'global_rand': (always, ev_global_rand, set()), 'smear_random': (always, ev_smear_random, set()),
     'pixel': (always, ev_pixel, set()), 'jitter': (always, ev_jitter, set()), 'smear': (always, ev_smear, set()),
     'collect': (always, ev_collect, set()), 'bayer': (always, ev_bayer, set()), 'spec_mul': (always, ev_spec_mul, set()),
